@@ -6,6 +6,7 @@ package health
 
 //@ func (p *Prober) Stop
 //@   ensures stopped: p.hc != nil ==> abool(p.stopped)
+//@   ensures kept: old(abool(p.stopped)) ==> abool(p.stopped)
 //@   assigns abool(p.stopped)
 //@ func (p *Prober) Start
 //@   assigns spawned[*]
